@@ -839,6 +839,8 @@ fn likely_chem_equation(mathml: Element) -> isize {
                         }     
                         if likely < CHEMISTRY_THRESHOLD {
                             is_changed_after_unmarking_chemistry(mtd);
+                            // the cell was parsed with marks that are gone now (bond priorities): note that a second parse is needed
+                            child.set_attribute_value(MAYBE_CHEMISTRY, "0");
                         }     
                     }
                 }
@@ -1020,6 +1022,8 @@ fn likely_chem_formula(mathml: Element) -> isize {
                     }     
                     if likely < CHEMISTRY_THRESHOLD {
                         is_changed_after_unmarking_chemistry(mtd);
+                        // the cell was parsed with marks that are gone now (bond priorities): note that a second parse is needed
+                        mathml.set_attribute_value(MAYBE_CHEMISTRY, "0");
                     }     
                 }
             }
